@@ -1087,10 +1087,10 @@ class MoneyConverter:
             else:
                 raise ValueError(f"Not a valid period: {validity}.")
         elif isinstance(validity, tuple):
-            dt_str = f"{validity[0]:04d}-{validity[1]:02d}-01"
-            try:  # verify year and month
-                dt = date.fromisoformat(dt_str)
-            except ValueError:
+            try:  # verify year and month (given as ints or strings)
+                year, month = validity
+                dt = date(int(year), int(month), 1)
+            except (TypeError, ValueError):
                 raise ValueError(f"Not a valid year / month: "
                                  f"{validity}.") from None
             else:
